@@ -237,35 +237,6 @@ func allLexemes() []string {
 	return out
 }
 
-func seqCase(r *engine.R, first []string, alphabet []string, more int) {
-	// every sequence first + (0..more further lexemes); clean ones are type-checked afterwards
-	var cleanOnes []string
-	parts := append([]string{}, first...)
-	var rec func(d int)
-	rec = func(d int) {
-		src := strings.Join(parts, " ")
-		if parseInput(r, src, false) {
-			cleanOnes = append(cleanOnes, src)
-		}
-		if d == 0 {
-			return
-		}
-		for _, l := range alphabet {
-			parts = append(parts, l)
-			rec(d - 1)
-			parts = parts[:len(parts)-1]
-		}
-	}
-	rec(more)
-	r.Count("token_sequences_parsing_clean", len(cleanOnes))
-	for _, src := range cleanOnes {
-		typecheck(r, src)
-	}
-	if len(cleanOnes) > 0 {
-		r.Sample("type-checked: " + cleanOnes[len(cleanOnes)-1])
-	}
-}
-
 // exactSeqCase: sequences of exactly len(first)+more lexemes (shorter ones are covered elsewhere).
 func exactSeqCase(r *engine.R, first []string, alphabet []string, more int) {
 	var cleanOnes []string
@@ -408,9 +379,9 @@ func main() {
 			"(c) all regex bodies of length <= 3 (quick) / 4 (thorough) over 25 characters x all 64 flag sets through regex/parser.Parse, regex.Transpile, value.CompileRegex; " +
 			"(d) every distinct byte prefix of the corpus programs through parser.New().Parse()/IsIncomplete/ShouldIndent and a fresh incremental checker. " +
 			"Every call under recover(); non-trivial = the input contains at least one token; evaluations count front-end entry-point calls",
-		Assume:          []string{"a hang is an input that keeps a case (<= 1 s of work on an idle machine) beyond the 120 s watchdog twice (second time alone with 360 s)", "method bodies checked one at a time (MethodCheckConcurrencyLimit=1)"},
+		Assume:          []string{"a hang is an input that keeps a case (<= 0.5 s of work on an idle machine) beyond the 20 s watchdog twice (the second time alone, with 60 s)", "method bodies checked one at a time (MethodCheckConcurrencyLimit=1)"},
 		HangIsViolation: true,
-		CaseTimeout:     120 * time.Second,
+		CaseTimeout:     20 * time.Second,
 		Setup: func(c *engine.Ctx) {
 			elkrun.Init()
 			color.NoColor = false // render diagnostics with colours, as a terminal user sees them
@@ -439,27 +410,42 @@ func run(c *engine.Ctx) {
 		r.Count("lexemes_in_full_alphabet", len(all))
 		r.Eval(1)
 	})
-	// pairs: one case per (first lexeme, block of 32 second lexemes) so that a case type-checks at most 32 programs
-	c.Case("tokens/singles", func(r *engine.R) { seqCase(r, nil, all, 1) })
+	// pairs: one case per (first lexeme, block of 8 second lexemes) so that a case type-checks at most 8 programs
+	// (cases must stay far below the hang watchdog even on a heavily loaded machine)
+	for i := 0; i < len(all); i += 8 {
+		part := all[i:min(i+8, len(all))]
+		c.Case(fmt.Sprintf("tokens/singles/%d", i), func(r *engine.R) {
+			if i == 0 {
+				parseInput(r, "", false)
+			}
+			exactSeqCase(r, nil, part, 1)
+		})
+	}
 	for _, l := range all {
-		for i := 0; i < len(all); i += 32 {
+		for i := 0; i < len(all); i += 8 {
 			f := []string{l}
-			part := all[i:min(i+32, len(all))]
+			part := all[i:min(i+8, len(all))]
 			c.Case(fmt.Sprintf("tokens/pairs/%q/%d", l, i), func(r *engine.R) { exactSeqCase(r, f, part, 1) })
 		}
 	}
 	for _, l1 := range coreLexemes {
 		for _, l2 := range coreLexemes {
-			f := []string{l1, l2}
-			c.Case(fmt.Sprintf("tokens/core3/%q %q", l1, l2), func(r *engine.R) { exactSeqCase(r, f, coreLexemes, 1) })
+			for i := 0; i < len(coreLexemes); i += 16 {
+				f := []string{l1, l2}
+				part := coreLexemes[i:min(i+16, len(coreLexemes))]
+				c.Case(fmt.Sprintf("tokens/core3/%q %q/%d", l1, l2, i), func(r *engine.R) { exactSeqCase(r, f, part, 1) })
+			}
 		}
 	}
 	if c.Thorough {
 		for _, l1 := range coreLexemes {
 			for _, l2 := range coreLexemes {
 				for _, l3 := range coreLexemes {
-					f := []string{l1, l2, l3}
-					c.Case(fmt.Sprintf("tokens/core4/%q %q %q", l1, l2, l3), func(r *engine.R) { exactSeqCase(r, f, coreLexemes, 1) })
+					for i := 0; i < len(coreLexemes); i += 16 {
+						f := []string{l1, l2, l3}
+						part := coreLexemes[i:min(i+16, len(coreLexemes))]
+						c.Case(fmt.Sprintf("tokens/core4/%q %q %q/%d", l1, l2, l3, i), func(r *engine.R) { exactSeqCase(r, f, part, 1) })
+					}
 				}
 			}
 		}
